@@ -309,6 +309,16 @@ def enqueue (s : State) (κ : Key) (sub : Nat) (resAddr : Int) (qAddr : Option I
   { s with queues := setQ s.queues κ (getQ s.queues κ ++ [r]), nextReq := s.nextReq + 1,
            issued := s.issued ++ [r] }
 
+/-- the assertions of `_do_create_epr` for a keep request: a qubit-id array of exactly `number` entries -/
+def createOk (m : AppMem) (isK : Bool) (number : Int) (qAddr : Option Int) : Bool :=
+  if isK then
+    match qAddr with
+    | none => false
+    | some qa => match getArr m.arrays qa with
+      | none => false
+      | some qarr => decide ((qarr.length : Int) = number)
+  else true
+
 def step (okf : Nat) (s : State) : Action → Option State
   | .initApp app n => some { s with apps := setApp s.apps app ⟨[], List.replicate n none⟩ }
   | .startSub sub app => some { s with subs := (sub, app) :: s.subs.filter (·.1 ≠ sub) }
@@ -337,14 +347,9 @@ def step (okf : Nat) (s : State) : Action → Option State
         | some p => some { s with apps := setApp s.apps app { m with unit := m.unit.set i none },
                                   used := s.used.filter (· ≠ p) }
   | .create sub remote purpose isK number qAddr resAddr => withApp s sub fun _ m =>
-      let ok : Bool := if isK then
-          match qAddr with
-          | none => false
-          | some qa => match getArr m.arrays qa with
-            | none => false
-            | some qarr => decide ((qarr.length : Int) = number)
-        else true
-      if ok then some (enqueue s ⟨remote, purpose, true⟩ sub resAddr qAddr number) else none
+      if createOk m isK number qAddr then
+        some (enqueue s ⟨remote, purpose, true⟩ sub resAddr qAddr number)
+      else none
   | .recv sub remote purpose qAddr resAddr => withApp s sub fun _ m =>
       match getArr m.arrays resAddr with
       | none => none
